@@ -242,7 +242,7 @@ package cache
 //@   requires [nodebt] $owed == $sent_total
 //@   requires [resp] resp != nil
 //@   requires [ttl] ttl > 0
-//@   modifies hc.status, hc.chanList, hc.response, hc.createdAt, hc.expiredAt, $tok[hc], $clock, $regs, $owed, $expbase[hc], $sent, $sent_total, cells(chan struct{}), resp.CompressSrv, resp.GzipBody, resp.BrBody, resp.RawBody
+//@   modifies hc.status, hc.chanList, hc.response, hc.createdAt, hc.expiredAt, $tok[hc], $clock, $regs, $owed, $expbase[hc], $sent, $sent_total, $enc, cells(chan struct{}), resp.CompressSrv, resp.GzipBody, resp.BrBody, resp.RawBody
 //@   nopanic
 //@   ensures  [consumed] $tok[hc] == 0
 //@   ensures  [nodebt]   $owed == $sent_total
@@ -259,11 +259,6 @@ package cache
 //@   loop 0: invariant [sent] forall k int :: 0 <= k && k <= $idx ==> $sent[list[k]] == at(lock0, $sent)[list[k]] + 1
 //@   loop 0: invariant [rest] forall k int :: $idx < k && k < len(list) ==> $sent[list[k]] == at(lock0, $sent)[list[k]]
 //@   loop 0: invariant [count] $sent_total == at(lock0, $sent_total) + $idx + 1
-
-//@ func (resp *HTTPResponse) Compress() (err error)
-//@   requires [recv] resp != nil
-//@   modifies resp.GzipBody, resp.BrBody, resp.RawBody
-//@   nopanic
 
 //@ func (hc *httpCache) Age() (age int)
 //@   requires [recv] hc != nil && hc.mu != nil
@@ -371,3 +366,56 @@ package cache
 //@   requires [recv] d != nil
 //@   nopanic
 //@   ensures [def] ttl == d.hitForPass
+
+// ---- response variants and content negotiation (http_response.go) ---------------------
+
+//@ immutable cells(uint8)
+//@ axiom [default-filter]: defaultCompressContentTypeFilter != nil && ErrBodyIsNil != nil
+//@ spec func acceptsBr(ae string) bool := contains(ae, "br")
+//@ spec func acceptsGzip(ae string) bool := contains(ae, "gzip")
+//@ spec func filterOf(r *HTTPResponse) *regexp.Regexp := (r.CompressContentTypeFilter == nil) ? defaultCompressContentTypeFilter : r.CompressContentTypeFilter
+//@ pred bigEnough(r *HTTPResponse) := len(r.RawBody) > r.CompressMinLength || len(r.GzipBody) > r.CompressMinLength || len(r.BrBody) > r.CompressMinLength
+//@ pred compressible(r *HTTPResponse) := bigEnough(r) && reMatch(filterOf(r), hget($hdr[r.Header], "Content-Type"))
+// the original (identity) body all stored variants stand for
+//@ spec func rawOf(r *HTTPResponse) Bytes := (len(r.RawBody) != 0) ? contents(r.RawBody) : ((len(r.GzipBody) != 0) ? gzipDec(contents(r.GzipBody)) : ((len(r.BrBody) != 0) ? brDec(contents(r.BrBody)) : contents(r.RawBody)))
+
+// representation invariant: every stored variant decodes to the same original body
+//@ pred consistent(r *HTTPResponse) := (len(r.GzipBody) != 0 ==> gzipDec(contents(r.GzipBody)) == rawOf(r)) && (len(r.BrBody) != 0 ==> brDec(contents(r.BrBody)) == rawOf(r))
+
+//@ func (resp *HTTPResponse) shouldCompressed() (b bool)
+//@   requires [recv] resp != nil
+//@   nopanic
+//@   ensures [def] b <==> compressible(resp)
+
+//@ func (resp *HTTPResponse) GetRawBody() (rawBody []byte, err error)
+//@   requires [recv] resp != nil
+//@   nopanic
+//@   ensures [raw] err == nil ==> contents(rawBody) == rawOf(resp) && ((len(resp.RawBody) != 0 || (len(resp.GzipBody) == 0 && len(resp.BrBody) == 0)) ==> rawBody == resp.RawBody)
+//@   ensures [ok]  (len(resp.RawBody) != 0 || (len(resp.GzipBody) == 0 && len(resp.BrBody) == 0)) ==> err == nil
+
+// the documented decision table (docs/response.md), one clause per row
+//@ func (resp *HTTPResponse) getBodyByAcceptEncoding(acceptEncoding string) (encoding string, body []byte, err error)
+//@   requires [recv] resp != nil
+//@   modifies $enc
+//@   nopanic
+//@   ensures [stored-br]   acceptsBr(acceptEncoding) && len(resp.BrBody) != 0 ==> err == nil && encoding == "br" && body == resp.BrBody && $enc == old($enc)
+//@   ensures [stored-gzip] !(acceptsBr(acceptEncoding) && len(resp.BrBody) != 0) && acceptsGzip(acceptEncoding) && len(resp.GzipBody) != 0
+//@                           ==> err == nil && encoding == "gzip" && body == resp.GzipBody && $enc == old($enc)
+//@   ensures [identity]    err == nil && !(acceptsBr(acceptEncoding) && len(resp.BrBody) != 0) && !(acceptsGzip(acceptEncoding) && len(resp.GzipBody) != 0) && !compressible(resp)
+//@                           ==> encoding == "" && contents(body) == rawOf(resp) && $enc == old($enc)
+//@   ensures [fresh-br]    err == nil && !(acceptsBr(acceptEncoding) && len(resp.BrBody) != 0) && !(acceptsGzip(acceptEncoding) && len(resp.GzipBody) != 0) && compressible(resp) && acceptsBr(acceptEncoding)
+//@                           ==> encoding == "br" && brDec(contents(body)) == rawOf(resp) && $enc == old($enc) + 1
+//@   ensures [fresh-gzip]  err == nil && !(acceptsGzip(acceptEncoding) && len(resp.GzipBody) != 0) && compressible(resp) && !acceptsBr(acceptEncoding) && acceptsGzip(acceptEncoding)
+//@                           ==> encoding == "gzip" && gzipDec(contents(body)) == rawOf(resp) && $enc == old($enc) + 1
+//@   ensures [neither]     err == nil && !acceptsBr(acceptEncoding) && !acceptsGzip(acceptEncoding) ==> encoding == "" && contents(body) == rawOf(resp) && $enc == old($enc)
+//@   ensures [accepted]    err == nil ==> (encoding == "" || (encoding == "br" && acceptsBr(acceptEncoding)) || (encoding == "gzip" && acceptsGzip(acceptEncoding)))
+
+//@ func (resp *HTTPResponse) Compress() (err error)
+//@   requires [recv] resp != nil
+//@   modifies resp.GzipBody, resp.BrBody, resp.RawBody, $enc
+//@   nopanic
+//@   ensures [noop]  !old(compressible(resp)) ==> err == nil && resp.GzipBody == old(resp.GzipBody) && resp.BrBody == old(resp.BrBody) && resp.RawBody == old(resp.RawBody) && $enc == old($enc)
+//@   ensures [both-gzip] err == nil && old(compressible(resp)) ==> len(resp.GzipBody) != 0
+//@   ensures [both-br]   err == nil && old(compressible(resp)) ==> len(resp.BrBody) != 0
+//@   ensures [raw]   err == nil && old(consistent(resp)) ==> rawOf(resp) == old(rawOf(resp)) && consistent(resp)
+//@   ensures [once]  $enc <= old($enc) + 2
